@@ -164,6 +164,60 @@ def run_seq(ctx, exe):
                 break
 
 
+def run_expiring_puts(ctx, exe):
+    """single thread, nobody else on the queue: a put with a finite timeout on a FULL open queue must sit out its deadline, return
+    false and leave the queue as it was (capacity respected).  Deterministic; judged against a plain bounded FIFO in Python (the
+    extracted model's sequential mode has no clock: it prints BLOCK for this op)."""
+    r = ctx.rng.fork("c15-expiring")
+    cases = []
+    for cap in (1, 2, 3):
+        cases.append(f"{cap} " + " ".join([f"p{i + 1}" for i in range(cap)] + ["m50", "s", "m51", "s"] + ["g"] * cap + ["s", "m52", "s", "g", "c", "m53"]))
+    for _ in range(12 if ctx.tier == "thorough" else 5):
+        cap = r.range(1, 3)
+        ops, ln, nv = [], 0, 1
+        for _ in range(r.range(4, 10)):
+            k = r.below(5)
+            if k <= 1 and ln < cap:
+                ops.append(f"p{nv}"); ln += 1; nv += 1
+            elif k == 2:
+                ops.append(f"m{nv}"); nv += 1
+                if ln < cap:
+                    ln += 1
+            elif k == 3 and ln > 0:
+                ops.append("g"); ln -= 1
+            else:
+                ops.append("s")
+        cases.append(f"{cap} " + " ".join(ops + ["s"]))
+    rc, out = ctx.run_exe(exe, ["seq"], input_text="\n".join(cases) + "\n", timeout=120)
+    got = out.strip("\n").split("\n")
+    if rc != 0 or len(got) != len(cases):
+        ctx.violation("queue-seq-crash", "the queue crashes or hangs on a single-threaded sequence with expiring timed puts",
+                      {"cases": cases[:3], "exit": rc, "output": out[-300:]})
+        return
+    for c, g in zip(cases, got):
+        cap = int(c.split()[0]); q, closed, exp = [], False, []
+        for o in c.split()[1:]:
+            v = int(o[1:]) if len(o) > 1 else 0
+            if o[0] in "pm":
+                if closed or len(q) >= cap:
+                    exp.append("0")
+                else:
+                    q.append(v); exp.append("1")
+            elif o[0] == "g":
+                exp.append("v%d" % q.pop(0) if q else "-")
+            elif o[0] == "s":
+                exp.append(str(len(q)))
+            elif o[0] == "c":
+                closed = True; exp.append(".")
+        ctx.case("seq-expiring:" + c, True)
+        ctx.count("seq-expiring-put")
+        if g.split() != exp:
+            ctx.violation("queue-timed-put-after-deadline", "a put with a finite timeout on a full queue does not fail at its deadline leaving the queue unchanged "
+                          "(single thread, no consumer)", {"case": c, "implementation": g, "expected": " ".join(exp),
+                                                            "legend": "p put, m 50 ms put, g get, s size, c close"})
+            return
+
+
 # ------------------------------------------------------------------------------------------------ (ii) stress
 def parse_events(out):
     evs = []
@@ -431,6 +485,7 @@ def run(ctx):
     exe = ctx.build_cpp("c15_harness", "c15.cpp")
     if exe:
         run_seq(ctx, exe)
+        run_expiring_puts(ctx, exe)
         run_wakeups(ctx, exe)
     run_stress(ctx)
     run_tsan(ctx)
